@@ -330,6 +330,15 @@ func TestC20DateTime64(t *testing.T) {
 	zs := fixedZones()
 	st := stats.G()
 	// Boundaries at every precision.
+	for p := 0; p <= 12; p++ {
+		pr := proto.Precision(p)
+		if pr.Valid() != (p <= 9) {
+			c20violate(t, "precision-valid", c20fail{"Precision.Valid", fmt.Sprint(p), fmt.Sprint(pr.Valid()), fmt.Sprint(p <= 9)})
+		}
+		if p <= 9 && (pr.Scale() != pow10(9-p) || pr.Duration() != time.Duration(pow10(9-p))) {
+			c20violate(t, "precision-scale", c20fail{"Precision.Scale/Duration", fmt.Sprint(p), fmt.Sprintf("%d / %v", pr.Scale(), pr.Duration()), fmt.Sprintf("%d ns per tick", pow10(9-p))})
+		}
+	}
 	for p := 0; p <= 9; p++ {
 		lo, hi := dt64Range(p)
 		tick := pow10(9 - p)
